@@ -42,6 +42,14 @@ func NewProcessor(gw *Gateway, tunnel *Tunnel) *Processor {
 const tunnelId = 10
 
 func (p *Processor) Process(ctx context.Context) error {
+	// the connection to the remote desktop host ends with the packet loop; closing
+	// it also makes the relay goroutine started at channel creation return
+	defer func() {
+		if p.tunnel.rwc != nil {
+			p.tunnel.rwc.Close()
+		}
+	}()
+
 	for {
 		pt, sz, pkt, err := p.tunnel.Read()
 		if err != nil {
